@@ -67,7 +67,7 @@ func PrepareC20(ctx *Ctx) (*Prepared, error) {
 			j.Opt.TimeoutMs = 120000
 		}
 		p.Jobs = append(p.Jobs, j)
-		p.Targets[j.Name] = &ReplayTarget{ModDir: hdir, PkgPath: "vh/c20", PkgDir: filepath.Join(hdir, "c20"), PkgName: "c20", Vstub: "vh/vstub", Overlay: true}
+		p.Targets["vh/c20"] = &ReplayTarget{ModDir: hdir, PkgPath: "vh/c20", PkgDir: filepath.Join(hdir, "c20"), PkgName: "c20", Vstub: "vh/vstub", Overlay: true}
 	}
 	p.Programs = 1
 	p.Bounds = map[string]interface{}{
